@@ -60,6 +60,8 @@ fn fix_ident_conflicts(sig: &mut syn::Signature) -> ParamStatus {
     // `r#foo` and `foo` are the same identifier
     let fn_ident_string = sig.ident.unraw().to_string();
     let mut taken_idents = all_binding_idents(sig);
+    // a user parameter may be named like a parameter generated in front of it (`__impl`)
+    let mut seen_idents = HashSet::new();
 
     for fn_arg in sig.inputs.iter_mut() {
         let arg_status = match fn_arg {
@@ -71,7 +73,9 @@ fn fix_ident_conflicts(sig: &mut syn::Signature) -> ParamStatus {
                     param_ident.mutability = None;
                     param_ident.subpat = None;
 
-                    if param_ident.ident.unraw() == fn_ident_string {
+                    let ident_string = param_ident.ident.unraw().to_string();
+
+                    if ident_string == fn_ident_string || !seen_idents.insert(ident_string) {
                         // format_ident handles raw identifiers (`r#match` -> `r#match_`)
                         let mut new_ident = quote::format_ident!("{}_", param_ident.ident);
                         while taken_idents.contains(&new_ident.unraw().to_string()) {
